@@ -117,6 +117,18 @@ type world struct {
 	mem   *gate.Log
 }
 
+func sameInts(a, b []int) bool {
+	if len(a) != len(b) {
+		return false
+	}
+	for i := range a {
+		if a[i] != b[i] {
+			return false
+		}
+	}
+	return true
+}
+
 func build(s *Scn, u *univ.Universe, sched *gate.Scheduler) (*world, error) {
 	w := &world{plan: gate.NewPlan(), mem: gate.NewLog()}
 	w.plan.Sched = sched
@@ -141,8 +153,21 @@ func build(s *Scn, u *univ.Universe, sched *gate.Scheduler) (*world, error) {
 	for _, i := range s.Rd {
 		rd = append(rd, fmt.Sprintf("/s%d/", i))
 	}
-	sto, err := blobserver.CreateStorage("replica", ld, jsonconfig.Obj{
-		"backends": back, "readBackends": rd, "minWritesForSuccess": float64(s.Min)})
+	conf := jsonconfig.Obj{"backends": back, "readBackends": rd, "minWritesForSuccess": float64(s.Min)}
+	// the documented defaults must mean the same as spelling them out: minWritesForSuccess omitted (or 0) = all
+	// write replicas, readBackends omitted = the write replicas. Which spelling a scenario gets depends on its shape.
+	if s.Min == len(s.W) {
+		switch (len(s.W) + len(s.Rd) + s.B) % 3 {
+		case 0:
+			delete(conf, "minWritesForSuccess")
+		case 1:
+			conf["minWritesForSuccess"] = float64(0)
+		}
+	}
+	if sameInts(s.W, s.Rd) && (s.N+s.B)%2 == 0 {
+		delete(conf, "readBackends")
+	}
+	sto, err := blobserver.CreateStorage("replica", ld, conf)
 	if err != nil {
 		return nil, err
 	}
